@@ -24,6 +24,7 @@ RULE = RULE + " Round e: signature values from a two-value pool per case (A, B, 
 RULE = RULE + " Round h: Sequence.save, objects saved before, objects saved / edited in place / saved again."
 RULE = RULE + " Round i: the file parsed once and loaded twice from the parsed object."
 RULE = RULE + " Round j: integral ticks stored as floats (after scale(2), scale(0.5))."
+RULE = RULE + " Round k: enharmonic key pairs in the pools."
 ASSUMPTIONS = ["mido's MIDI file writer/reader is trusted", "trailing rests are not stored by the writer and not part of the statement"]
 TIERS = {"quick": dict(shards=8, examples=400, alt_ppqn=[480], alt_shards=2),
          "thorough": dict(shards=16, examples=5000, alt_ppqn=[480, 7, 1000], alt_shards=2)}
@@ -41,7 +42,8 @@ def _case(draw):
     key_s = st.sampled_from(gens.KEYS)
     if draw(st.booleans()):
         sig_s = st.sampled_from(draw(st.lists(sig_s, min_size=2, max_size=2)))
-        key_s = st.sampled_from(draw(st.lists(key_s, min_size=2, max_size=2)))
+        key_s = st.sampled_from(draw(st.one_of(st.lists(key_s, min_size=2, max_size=2),
+                                               st.sampled_from([["Db", "C#"], ["Gb", "F#"], ["Cb", "B"]]))))
     for t in ts_ticks:
         sig = draw(sig_s)
         metas[draw(st.integers(0, k - 1))].append(["ts", t, sig[0], sig[1]])
